@@ -2,6 +2,7 @@ package minimax
 
 import (
 	"fmt"
+	"math/bits"
 
 	"github.com/tuneinsight/lattigo/v6/circuits/ckks/bootstrapping"
 	"github.com/tuneinsight/lattigo/v6/circuits/ckks/polynomial"
@@ -44,7 +45,9 @@ func (eval Evaluator) Evaluate(ct *rlwe.Ciphertext, mcp Polynomial) (res *rlwe.C
 	for _, poly := range mcp {
 
 		// Checks that res has enough level to evaluate the next polynomial, else bootstrap
-		if res.Level() < poly.Depth()*params.LevelsConsumedPerRescaling()+btp.MinimumInputLevel() {
+		// The evaluation of a polynomial of degree d consumes ceil(log2(d+1)) rescalings
+		/* #nosec G115 -- Degree cannot be negative */
+		if res.Level() < bits.Len64(uint64(poly.Degree()))*params.LevelsConsumedPerRescaling()+btp.MinimumInputLevel() {
 			if res, err = btp.Bootstrap(res); err != nil {
 				return
 			}
